@@ -73,17 +73,36 @@ META.update({
         note="Schedule exhaustiveness (all work-stealing schedules) is the subject of the controlled-scheduler engine; this check runs real rayon with 4 worker threads.", ref="DESIGN.md §5 C11"),
 })
 
+META.update({
+    "C16": dict(technique="exhaustive enumeration of builder-made models (all parameter-list permutations x all ordered subsets x all derivative orders, arities 1..10) with injectively tagged closures, exact comparison",
+        text="Each enumerated model is built through the public builder with closures that encode (function id, received arguments in order); eval, every partial derivative, the params round-trip and parameters() are compared bitwise with the specification. Each macro-generated arity 1..10 is exercised with assignments that separate every pair of argument positions.",
+        note="Arity <= 4 is complete over 3- and 4-parameter models; arity 5..10 is systematic (rotations, all transpositions), not all 10!/(10-a)! assignments.", ref="DESIGN.md §5 C16"),
+})
+
+META.update({
+    "C17": dict(technique="explicit-state exploration of all misuse op sequences up to depth d on a real builder-made model, under every environment of wrong-length closure outputs, against a reference state machine (last accepted parameters)",
+        text="Every op of every sequence is judged: right error kind and payload for wrong output lengths (also two cooperating wrong lengths whose totals cancel), out-of-range derivative indices and wrong parameter counts; no panic; after every call params() and all later evaluations are bitwise those of the last accepted parameter vector.",
+        note="Reference: harness/src/bin/mbuilder.rs (mod misuse). Depth 3 quick / 4 thorough over 12 ops x 93 environments.", ref="DESIGN.md §5 C17"),
+})
+
+META.update({
+    "C18": dict(technique="exhaustive enumeration of fitting-problem-builder call sequences (all orders and repetitions up to length L) against a reference validation function, with behavioural observation of the threshold",
+        text="Ok iff the reference finds no violated requirement, errors must name a violated requirement, a built problem starts at the model's parameters with residuals/coefficients equal to an explicit set_params(initial), equals the canonical-order build bitwise (order and repetition do not matter), and uses |epsilon| (machine epsilon if none) as observed on a crafted diagonal basis.",
+        note="Shapes: rows 0..4, cols 0..3, weights length 0..4, model output length 0,1,3; L = 3 quick / 4 thorough.", ref="DESIGN.md §5 C18"),
+})
+
 NOT_YET = "check not yet registered in this revision (engine under construction, see DESIGN.md §10)"
 NA = {
     "C19": "frequency claim over a continuous noise distribution ('up to sampling error'): deciding it needs Monte-Carlo sampling or an analytic proof, neither of which is an exhaustive enumeration of a bounded behaviour space (DESIGN.md §5 C19); its deterministic ingredients are decided under C12-C14",
 }
 
 ENGINES = [
+    dict(name="pbuilder", path="harness/src/bin/pbuilder.rs", serves_properties=["C18"], kind_free_text="exhaustive enumeration of LevMarProblemBuilder call sequences vs reference validation"),
     dict(name="probstate", path="harness/src/bin/probstate.rs", serves_properties=["C01", "C02", "C03", "C06", "C07", "C10", "C11"], kind_free_text="explicit-state DFS over set_params histories of the real LevMarProblem with per-state invariants and lock-step twins"),
     dict(name="stats", path="harness/src/bin/stats.rs", serves_properties=["C12", "C13", "C14"], kind_free_text="product-grid exploration of real fit_with_statistics runs vs reference linear algebra and scipy t-table"),
     dict(name="nonfinite", path="harness/src/bin/nonfinite.rs", serves_properties=["C08"], kind_free_text="deviation-bounded enumeration of IEEE special values at every input position, watchdogged"),
     dict(name="faults", path="harness/src/bin/faults.rs", serves_properties=["C09", "C03"], kind_free_text="fault injection at every model-call index over histories, fits and statistics"),
-    dict(name="mbuilder", path="harness/src/bin/mbuilder.rs", serves_properties=["C15"], kind_free_text="explicit-state enumeration of builder call sequences vs reference automaton (real SeparableModelBuilder)"),
+    dict(name="mbuilder", path="harness/src/bin/mbuilder.rs", serves_properties=["C15", "C16", "C17"], kind_free_text="explicit-state enumeration of builder call sequences vs reference automaton (real SeparableModelBuilder)"),
 ]
 
 
